@@ -127,6 +127,17 @@ pub struct LspServer {
     pub malformed_output: Option<String>,
 }
 
+/// The `contentChanges` array of a full-sync didChange whose final text is `text`.  One notification in five
+/// (a function of the text) carries TWO full-text events, the first one superseded by the second: legal under
+/// full synchronisation (events apply in order), produced by clients that batch keystrokes.
+pub fn content_changes(text: &str) -> Value {
+    if super::util::fnv(text) % 5 == 0 {
+        json!([{"text": "import pytest\n\n@pytest.fixture\ndef superseded_event():\n    return 0\n"}, {"text": text}])
+    } else {
+        json!([{"text": text}])
+    }
+}
+
 impl LspServer {
     pub fn start(root: &Path) -> LspServer {
         let rt = real_tokio::runtime::Builder::new_current_thread().enable_all().start_paused(true).build().expect("tokio runtime");
@@ -401,7 +412,7 @@ impl LspServer {
     }
     pub fn did_change(&mut self, rel: &str, text: &str, version: i64) {
         let uri = self.uri(rel);
-        self.notify("textDocument/didChange", json!({"textDocument": {"uri": uri, "version": version}, "contentChanges": [{"text": text}]}));
+        self.notify("textDocument/didChange", json!({"textDocument": {"uri": uri, "version": version}, "contentChanges": content_changes(text)}));
     }
     pub fn did_close(&mut self, rel: &str) {
         let uri = self.uri(rel);
